@@ -19,7 +19,7 @@ RULE = ("Histories over the state-changing API: force_constants= (full|compact, 
         "the cell object handed to the constructor is guarded; interleaved with queries (q-points with all "
         "outputs, mesh + thermal properties, random displacements) that populate caches; three small crystals; constructor "
         "variants (group_velocity_delta_q, is_symmetry). 'enum': ALL sequences of length <= 2 (quick) / <= 3 (thorough) over a "
-        "canonical 21-letter alphabet, for the three dynamical-matrix classes. Non-trivial: >= 2 state changes of different "
+        "canonical 22-letter alphabet, for the three dynamical-matrix classes. Non-trivial: >= 2 state changes of different "
         "kinds before the last query. Distinct by hash of the history.")
 ASSUMPTIONS = [
     "force_constants handed in as an OWNED float64 C-contiguous array is documented to be shared and modified in place by the "
@@ -185,6 +185,20 @@ class Hist:
                 self._guard("Born charges handed in through nac_params=", Z)
                 self._guard("dielectric tensor handed in through nac_params=", eps)
                 ph.nac_params = params
+        elif op == "nac_inplace":
+            # the caller edits the dictionary the getter handed out and gives it back through the setter
+            nac = ph.nac_params
+            if nac is not None and self.model_nac is not None:
+                Z, eps = sym_nac(ph.primitive, rng)
+                model = copy.deepcopy(self.model_nac)
+                if step.get("which", "born") == "born":
+                    model["born"] = np.array(Z, copy=True)
+                    nac["born"] = Z
+                else:
+                    model["dielectric"] = np.array(eps, copy=True)
+                    nac["dielectric"] = eps
+                self.model_nac = model
+                ph.nac_params = nac
         elif op == "masses":
             cur = np.array(self.model_masses if self.model_masses is not None else self._prim_masses0(), dtype=float)
             how = step.get("how", "random")
@@ -271,6 +285,25 @@ class Hist:
                 if not np.array_equal(np.asarray(got[key]), want[key]):
                     return "the dataset reported differs from the dataset last set in %r" % key
             wf, we = want.get("forces"), want.get("supercell_energies")
+        # the displaced supercells handed out belong to the dataset last set (asked for after every step, so that a stale copy shows)
+        cells = self.ph.supercells_with_displacements
+        sc = self.ph.supercell
+        if "first_atoms" in want:
+            wantpos = []
+            for e in want["first_atoms"]:
+                pos = np.array(sc.positions, copy=True)
+                pos[e["number"]] += e["displacement"]
+                wantpos.append(pos)
+        else:
+            wantpos = [np.array(sc.positions) + d for d in want["displacements"]]
+        if cells is None or len(cells) != len(wantpos):
+            return "%s displaced supercells handed out, the dataset last set describes %d" % ("no" if cells is None else len(cells), len(wantpos))
+        Ls = np.array(sc.cell)
+        for k, (c_, wp) in enumerate(zip(cells, wantpos)):
+            d = (c_.positions - wp) @ np.linalg.inv(Ls)
+            d -= np.rint(d)
+            if np.abs(d @ Ls).max() > 1e-9:
+                return "displaced supercell %d handed out differs from supercell + displacements of the dataset last set by %.3e Angstrom" % (k, np.abs(d @ Ls).max())
         for name, w, g in (("forces", wf, self.ph.forces), ("supercell_energies", we, self.ph.supercell_energies)):
             if (w is None) != (g is None):
                 return "%s reported: %s; the dataset last set %s" % (name, "none" if g is None else "an array of shape %s" % (np.shape(g),),
@@ -338,7 +371,8 @@ ALPHABET = [
     {"op": "masses", "key": 11, "how": "tiny"}, {"op": "copy"}, {"op": "query_dir", "dir": [0.3, -0.5, 0.8]},
     {"op": "nac", "method": "wang", "key": 12, "data": "drift"},
     {"op": "dataset", "kind": "t2", "key": 13, "n": 3, "forces": True, "energies": True}, {"op": "dataset", "kind": "t2", "key": 14, "n": 3, "forces": False},
-    {"op": "dataset", "kind": "t1", "key": 15, "n": 3, "forces": True}, {"op": "dataset", "kind": "t1", "key": 16, "n": 3, "forces": False},
+    {"op": "dataset", "kind": "t1", "key": 15, "n": 3, "forces": True}, {"op": "dataset", "kind": "t1", "key": 16, "n": 2, "forces": False},
+    {"op": "nac_inplace", "key": 17, "which": "born"},
 ]
 
 
@@ -423,6 +457,10 @@ def machine_shard(args, stats):
         @rule(kind=st.sampled_from(["t1", "t2"]), key=keys_, n=st.integers(1, 4), forces=st.booleans(), energies=st.booleans())
         def dataset(self, kind, key, n, forces, energies):
             self._do({"op": "dataset", "kind": kind, "key": key, "n": n, "forces": forces, "energies": energies})
+
+        @rule(key=keys_, which=st.sampled_from(["born", "dielectric"]))
+        def nac_inplace(self, key, which):
+            self._do({"op": "nac_inplace", "key": key, "which": which})
 
         @rule()
         def sym_sg(self):
